@@ -80,6 +80,8 @@ type FuncExec struct {
 	lockOrds map[ssa.Instruction]int
 	callNames map[ssa.Instruction]string
 	callOrdStatic map[ssa.Instruction]int
+	storeOrd map[ssa.Instruction]int
+	storeField map[ssa.Instruction]string
 	quantsOf map[string][]quantRec
 	qfacts   []qfact
 }
@@ -173,12 +175,21 @@ func (fx *FuncExec) assume(st *State, fact string) {
 // itself over an arbitrary constant - both steps are sound.
 func (fx *FuncExec) skolemize(st *State, ob *Obligation) {
 	recs, ok := fx.quantsOf[ob.goal]
-	if !ok {
+	if !ok && (fx.fc == nil || len(fx.fc.Inst) == 0) {
 		return
 	}
 	var hints []string
 	if fx.fc != nil {
 		env := fx.specEnv(st, fx.entry)
+		if fx.curInstr != nil && fx.curInstr.Block() != nil {
+			// innermost loop around the current instruction (for $idx in hints)
+			for _, li := range fx.loops {
+				if li.blocks[fx.curInstr.Block()] && (env.loop == nil || len(li.blocks) < len(env.loop.blocks)) {
+					env.loop = li
+					env.idxState = st
+				}
+			}
+		}
 		for _, h := range fx.fc.Inst {
 			func() {
 				defer func() { recover() }() // a hint that cannot be evaluated here is simply not used
@@ -204,6 +215,10 @@ func (fx *FuncExec) skolemize(st *State, ob *Obligation) {
 		}
 	}
 	ob.goal = goal
+	if len(recs) == 0 {
+		// a ground goal: the hints themselves are the instantiation terms
+		terms = append(terms, hints...)
+	}
 	n := 0
 	for _, qf := range fx.qfacts {
 		if qf.prefix > ob.prefix {
@@ -692,6 +707,7 @@ func (fx *FuncExec) execInstr(st *State, in ssa.Instruction) {
 		fx.checkGuard(st, addr, x.Pos(), "write")
 		fx.nilCheckPtr(st, addr, "store through nil pointer")
 		fx.StoreThrough(st, addr, v)
+		fx.afterStore(st, x)
 	case *ssa.UnOp:
 		fx.execUnOp(st, x)
 	case *ssa.BinOp:
@@ -1671,4 +1687,48 @@ func (fx *FuncExec) cover(st *State, desc string, pos token.Pos) {
 	}
 	ob.Model = map[string]string{}
 	fx.obls = append(fx.obls, ob)
+}
+
+// afterStore: `at store Field#N assert e` - e must hold right after the N-th (source order) store
+// to a struct field of that name.
+func (fx *FuncExec) afterStore(st *State, x *ssa.Store) {
+	if fx.fc == nil || len(fx.fc.Stores) == 0 {
+		return
+	}
+	if fx.storeOrd == nil {
+		fx.storeOrd = map[ssa.Instruction]int{}
+		fx.storeField = map[ssa.Instruction]string{}
+		by := map[string][]ssa.Instruction{}
+		for _, b := range fx.fn.Blocks {
+			for _, in := range b.Instrs {
+				if s, ok := in.(*ssa.Store); ok {
+					if fa, ok := s.Addr.(*ssa.FieldAddr); ok {
+						pt := fa.X.Type().Underlying().(*types.Pointer)
+						name := pt.Elem().Underlying().(*types.Struct).Field(fa.Field).Name()
+						by[name] = append(by[name], in)
+						fx.storeField[in] = name
+					}
+				}
+			}
+		}
+		for _, ins := range by {
+			sort.SliceStable(ins, func(i, j int) bool { return ins[i].Pos() < ins[j].Pos() })
+			for i, in := range ins {
+				fx.storeOrd[in] = i + 1
+			}
+		}
+	}
+	name, ok := fx.storeField[x]
+	if !ok {
+		return
+	}
+	for _, ss := range fx.fc.Stores {
+		if ss.Callee == name && ss.Ordinal == fx.storeOrd[x] {
+			env := fx.specEnv(st, fx.entry)
+			for _, a := range ss.Asserts {
+				fx.oblige("assert@store", st, fx.evalBool(env, a), fmt.Sprintf("after store %s#%d: %s", name, ss.Ordinal, a.Text), x.Pos())
+			}
+			fx.usedCallSites[ss] = true
+		}
+	}
 }
